@@ -183,6 +183,11 @@ class Ctx(object):
         `instrument` instrumented for edge coverage. The same check_case oracle runs on every case. libFuzzer
         never returns, so the campaign runs in a forked child that reports through files; its counts, labels,
         samples and (unshrunk) failing cases are merged into this context. Returns the statistics dict."""
+        if not os.path.isdir(os.path.join(VERIF, '.deps', 'atheris')):
+            # setup.sh could not install the wheel: the campaign is skipped and said so in the evidence
+            stats = {'campaign': name, 'skipped': 'atheris is not installed under .deps (see setup.sh)'}
+            self.extra.setdefault('fuzz_campaigns', []).append(stats)
+            return stats
         base = os.path.join(self.mkscratch(), 'fuzz-%s' % name)
         shutil.rmtree(base, ignore_errors=True)
         os.makedirs(os.path.join(base, 'corpus'))
